@@ -92,6 +92,11 @@ func init() {
 
 func (x *Run) model(fr *Frame, st *State, fn *ssa.Function, args []Val, site ssa.Instruction) ([]Outcome, bool) {
 	name := fn.String()
+	if strings.HasPrefix(name, "slices.Equal[") && len(args) == 2 && args[0].S == args[1].S {
+		r := x.ufApply(st, "ext."+x.fnShort(fn), args, fn.Signature.Results())
+		st.assume(implies(eq(args[0].T, args[1].T), r.T))
+		return single(st, r), true
+	}
 	if m, ok := modelTable[name]; ok {
 		return m(x, fr, st, fn, args, site), true
 	}
@@ -330,12 +335,8 @@ func (x *Run) unlockOp(fr *Frame, st *State, mu Val, mode int, site ssa.Instruct
 
 // mutexOwner: if the mutex address is field m of object o, return o and m.
 func (x *Run) mutexOwner(a *Addr) (*Addr, int) {
-	if a.Kind != AObj {
-		return nil, -1
-	}
-	// a.Ref has the form (fa.T.f ref)
-	if a.owner != nil {
-		return a.owner, a.ownerField
+	if a.Kind == AField && len(a.Sel) == 0 {
+		return &Addr{Kind: AObj, Ref: a.Ref, Ty: a.Ty, Fresh: a.Fresh}, a.Field
 	}
 	return nil, -1
 }
